@@ -1,6 +1,7 @@
 #!/bin/sh
 # usage: tools/try_seed.sh <worktree with a seeded change applied, demo.py inside> <C09|C10|C20> [tier]
 # 1. unedited suite with the change  2. demo fails with / passes without the change  3. the check against it
+HERE=$(cd "$(dirname "$0")/.." && pwd)
 D=$1; P=$2; T=${3:-quick}
 cd "$D" || exit 9
 echo "== $(git diff --stat -- kingdon | tail -1)"
@@ -9,7 +10,7 @@ timeout 300 /venv/bin/python demo.py > /dev/null 2>&1; echo "== demo with change
 git stash -q -- kingdon
 timeout 300 /venv/bin/python demo.py > /dev/null 2>&1; echo "== demo without change: exit $?"
 git stash pop -q
-cd "$(dirname "$0")/.." 2>/dev/null || cd /verif
+cd "$HERE" || exit 9
 out=$(VERIF_REPO="$D" ./check "$P" --tier "$T" --no-evidence 2>&1); code=$?
 echo "== check $P $T: exit $code :: $(echo "$out" | tail -1)"
 echo "$out" | grep -E "VIOLATION|HARNESS" | head -3
